@@ -414,12 +414,22 @@ Definition fermata_extras (k e delta : Z) (objs : list obj) : list nobj :=
   map (raw_copy k delta true)
       (filter (fun o => (o_cls o =? cls_fermata) && (o_start o =? e) && (o_sig o =? 1)) objs).
 
+(* attributes 0 tie_prev 1 tie_next 6 grace_next 7 grace_prev 8 start_note 9 end_note hold one
+   reference (None when the target was not copied: no target left); 2..5 (slur/tuplet starts and
+   stops) are lists whose slots are kept, holding None *)
+Definition single_attrs : list Z := [0; 1; 6; 7; 8; 9].
+Definition is_some {A} (o : option A) : bool := match o with Some _ => true | None => false end.
+
+Definition replace_ref (k : Z) (copied : list Z) (r : Z * list (option (Z * Z))) : Z * list (option (Z * Z)) :=
+  let mapped := map (fun t => match t with
+                              | Some (i, _) => if zmem i copied then Some (i, k) else None
+                              | None => None end) (snd r) in
+  (fst r, if zmem (fst r) single_attrs then filter is_some mapped else mapped).
+
 Definition replace_refs (k : Z) (copied : list Z) (n : nobj) : nobj :=
   if n_extra n || negb (n_visit n =? k) then n
   else mkN (n_id n) (n_visit n) (n_extra n) (n_cls n) (n_start n) (n_end n) (n_sig n) (n_attrs n)
-           (map (fun r => (fst r, map (fun t => match t with
-                                                | Some (i, _) => if zmem i copied then Some (i, k) else None
-                                                | None => None end) (snd r))) (n_refs n)).
+           (map (replace_ref k copied) (n_refs n)).
 
 Definition visit (objs : list obj) (k s e off : Z) (acc : list nobj) : list nobj :=
   let delta := off - s in
